@@ -242,7 +242,7 @@ def run_case(case):
             if bad_sharding:
                 obs["sharding_malformed_refused"] = 1
                 return {"violations": [], "obs": obs}
-            if rgb_opts and "AttributeError" in raised:
+            if rgb_opts:
                 return {"violations": [], "obs": obs}   # recorded under C01
             return {"violations": [{"kind": "metadata-generation-raised",
                                     "detail": f"{ctx}: {raised}"}], "obs": obs}
